@@ -620,7 +620,7 @@ theorem C03_gomod_model_semantics (d : GoMod.Doc) :
   -- the three intermediate maps
   let es0 := d.requires.map fun r => (GoMod.keyOf r, (⟨r.1, trimPrefixV r.2⟩ : NV))
   let m0 := insertAll es0 []
-  let m1 := m0.map fun kv => (GoMod.ordered d).foldl GoMod.step kv
+  let m1 := m0.map fun kv => d.replaces.foldl GoMod.step kv
   let sv := GoMod.stdlibVersion d
   let m2 := if sv.isEmpty then m1 else set m1 GoMod.stdlibKey ⟨"stdlib".toList, sv⟩
   let es3 := m2.map fun kv => ((kv.2.name, kv.2.version), kv.2)
